@@ -134,3 +134,11 @@ pub fn write_replay(dir: &Path, name: &str, v: &Value) -> Result<PathBuf, String
 pub fn sanitize(s: &str) -> String {
     s.chars().map(|c| if c.is_ascii_alphanumeric() || c == '-' { c } else { '_' }).collect()
 }
+
+/// Panics of simulated processes are caught and judged, so their messages are silenced - unless
+/// VERIF_SHOW_PANICS is set (debugging the harness itself).
+pub fn quiet_panics() {
+    if std::env::var_os("VERIF_SHOW_PANICS").is_none() {
+        std::panic::set_hook(Box::new(|_| {}));
+    }
+}
